@@ -67,6 +67,7 @@ def parsed_tree(ctx, rng, **kw):
         q = qg.query()
         r, t = parsing.impl_parse(q)
         if t is not None:
+            common.register_parsed(r["ok"], q)
             return q, r["ok"]
     return None, None
 
